@@ -24,6 +24,7 @@ import (
 	"github.com/AdguardTeam/AdGuardDNS/internal/filter"
 	"github.com/AdguardTeam/AdGuardDNS/internal/filter/filterstorage"
 	"github.com/AdguardTeam/AdGuardDNS/internal/filter/hashprefix"
+	"github.com/c2h5oh/datasize"
 	"github.com/miekg/dns"
 )
 
@@ -393,6 +394,11 @@ type instConf struct {
 	URLs      map[string]string `json:"urls"`
 	TimeoutMs int               `json:"timeout_ms"`
 	VMax      int               `json:"vmax"`
+	// NoSvcSS disables the blocked-service and the safe-search filters.
+	NoSvcSS bool `json:"no_svc_ss,omitempty"`
+	// ListMaxSize, if not 0, replaces the maximum size of rule lists and hash
+	// lists (not of the indexes and safe-search lists).
+	ListMaxSize int `json:"list_max_size,omitempty"`
 }
 
 const maxSize = 96 * 1024
@@ -421,6 +427,10 @@ const staleness = time.Nanosecond
 func newInstance(tb testing.TB, c instConf) (*instance, error) {
 	in := &instance{conf: c, errs: &errSink{}, hp: map[string]*hashprefix.Filter{}, msgs: agdtest.NewConstructor(tb)}
 	to := time.Duration(c.TimeoutMs) * time.Millisecond
+	listMax := datasize.ByteSize(maxSize)
+	if c.ListMaxSize > 0 {
+		listMax = datasize.ByteSize(c.ListMaxSize)
+	}
 	for _, t := range hpTargets {
 		strg, err := hashprefix.NewStorage("")
 		if err != nil {
@@ -441,7 +451,7 @@ func newInstance(tb testing.TB, c instConf) (*instance, error) {
 			CacheTTL:        time.Hour,
 			RefreshTimeout:  to,
 			CacheCount:      1000,
-			MaxSize:         maxSize,
+			MaxSize:         listMax,
 		})
 		if err != nil {
 			return nil, err
@@ -451,7 +461,7 @@ func newInstance(tb testing.TB, c instConf) (*instance, error) {
 	ss := func(t string, id filter.ID) *filterstorage.ConfigSafeSearch {
 		return &filterstorage.ConfigSafeSearch{
 			URL: mustURL(c.URLs[t]), ID: id, MaxSize: maxSize, ResultCacheTTL: time.Hour,
-			RefreshTimeout: to, Staleness: staleness, ResultCacheCount: 1000, Enabled: true,
+			RefreshTimeout: to, Staleness: staleness, ResultCacheCount: 1000, Enabled: !c.NoSvcSS,
 		}
 	}
 	st, err := filterstorage.New(&filterstorage.Config{
@@ -459,14 +469,14 @@ func newInstance(tb testing.TB, c instConf) (*instance, error) {
 		Logger:     discard,
 		BlockedServices: &filterstorage.ConfigBlockedServices{
 			IndexURL: mustURL(c.URLs[tSvc]), IndexMaxSize: maxSize, IndexRefreshTimeout: to,
-			IndexStaleness: staleness, ResultCacheCount: 1000, ResultCacheEnabled: true, Enabled: true,
+			IndexStaleness: staleness, ResultCacheCount: 1000, ResultCacheEnabled: true, Enabled: !c.NoSvcSS,
 		},
 		Custom: &filterstorage.ConfigCustom{CacheCount: 10},
 		HashPrefix: &filterstorage.ConfigHashPrefix{
 			Adult: in.hp[tHPAdult], Dangerous: in.hp[tHPDanger], NewlyRegistered: in.hp[tHPNewReg],
 		},
 		RuleLists: &filterstorage.ConfigRuleLists{
-			IndexURL: mustURL(c.URLs[tIdx]), IndexMaxSize: maxSize, MaxSize: maxSize,
+			IndexURL: mustURL(c.URLs[tIdx]), IndexMaxSize: maxSize, MaxSize: listMax,
 			IndexRefreshTimeout: to, IndexStaleness: staleness, RefreshTimeout: to, Staleness: staleness,
 			ResultCacheCount: 1000, ResultCacheEnabled: true,
 		},
